@@ -52,7 +52,7 @@ func probes() []probe {
 			ok := it.First()
 			_, gerr := getStr(tx, "\x01a")
 			if !ok && gerr != nil && !errors.Is(gerr, db.ErrKeyNotFound) {
-				return "remotedb:iterator:first:kills-stream", fmt.Sprintf("store {01 61}; NewSnapshot; NewIterator(nil,false); Seek(01 61)=true; First()=false and the transaction is dead: Get(01 61) = %v", gerr)
+				return "remotedb:first-unsupported:iterator-kills-stream", fmt.Sprintf("store {01 61}; NewSnapshot; NewIterator(nil,false); Seek(01 61)=true; First()=false and the transaction is dead: Get(01 61) = %v", gerr)
 			}
 			if !ok {
 				return "remotedb:iterator:first:false-on-nonempty-store", "First() = false on a non-empty store"
